@@ -322,6 +322,14 @@ func (P) Gen(r *core.Rand, tier string, emit func([]string)) {
 		maxLen, maxFault, canonFault, nShort, nLong, nConc, nStorm, nHammer = 7, 5, 6, 6000, 300, 400, 300, 3000
 	}
 	emit([]string{"alias"})
+	// a response body that stalls while other logger calls must complete (gate.go)
+	nGate := 12
+	if tier == "thorough" {
+		nGate = 120
+	}
+	for i := 0; i < nGate; i++ {
+		emit([]string{"gate " + strconv.FormatUint(r.U64()%1000000, 10) + " " + strconv.Itoa(r.Range(1, 6))})
+	}
 	nBase, nFault, nCanon := 0, 0, 0
 	for n := 1; n <= maxLen; n++ {
 		nBase += allWords(alphabet, n, 6561, false, nil, emit)
